@@ -199,6 +199,18 @@ func runC06(ctx *core.Ctx, idx int) *core.Result {
 		os.WriteFile(filepath.Join(dir, n), []byte(p), 0o644)
 		pargs = append(pargs, "-p", n)
 	}
+	if kind == "A-anchor-absent" && r.Intn(6) == 0 {
+		// the patches come from a -P list; every 12th such list names no patch at all: nothing applies to anything
+		list := ""
+		if r.Intn(2) == 0 {
+			for i := range patches {
+				list += fmt.Sprintf("p%d.patch\n", i)
+			}
+		}
+		os.WriteFile(filepath.Join(dir, "list.txt"), []byte(list+"\n"), 0o644)
+		pargs = []string{"-P", "list.txt"}
+		res.Ob("patches-from-a-list", 1)
+	}
 	os.Mkdir(filepath.Join(dir, "src"), 0o755)
 	var names []string
 	for _, f := range files {
